@@ -6,8 +6,10 @@ model:   specs/MC_UrwidCanvas (design level): CalcTrim (transcribed from
          canvas / colour-run pattern / sub-rectangle and never leaves a colour behind.
 binding: spec -> code.  Every CalcTrimOp transition TLC generates (all sizes 1..9, images,
          alignment splits, trim pairs) is replayed into the REAL _ti_calc_trim.
-         code -> spec.  Real UrwidImage.render(size) canvases (box / flow, upscale, 3x3
-         alignments, alpha kinds, block / kitty / iterm2, terminal identities); the rows of
+         code -> spec.  Real UrwidImage.render(size) canvases (box / flow, upscale, 4x4
+         alignments as a format spec can give them - explicit near / mid / far and ABSENT
+         (documented default) per axis = the alignment universe of the model, which the run
+         must cover -, alpha kinds, block / kitty / iterm2, terminal identities); the rows of
          the real canvas.content(trim_left, trim_top, cols, rows) for EVERY sub-rectangle
          are lexed and judged by TLC (Trace_Canvas.tla: Terminal.tla semantics, expectation
          = UrwidCanvas!CropRow of the rows of the untrimmed content()).
@@ -47,9 +49,25 @@ ASSUMPTIONS = [
     "meaningful and are outside the property",
 ]
 
-H_ALIGNS = "<|>"
-V_ALIGNS = "^-_"
-ALIGN_NAME = {"<": "near", "|": "mid", ">": "far", "^": "near", "-": "mid", "_": "far"}
+# alignments as a format spec can give them: "" = NO alignment given for that axis (the widget
+# carries None; documented default centre / middle) - "absent" in UrwidCanvas!AlignValues
+H_EXPLICIT = ["<", "|", ">"]
+V_EXPLICIT = ["^", "-", "_"]
+H_ALIGNS = H_EXPLICIT + [""]
+V_ALIGNS = V_EXPLICIT + [""]
+ALIGN_NAME = {"<": "near", "|": "mid", ">": "far", "^": "near", "-": "mid", "_": "far",
+              "": "absent"}
+
+
+def format_spec(ha, va, alpha, sargs=""):
+    """[h_align][.v_align][alpha][+style]: an absent vertical alignment means no dot at all."""
+    return ha + ("." + va if va else "") + alpha + ("+" + sargs if sargs else "")
+
+
+def absent_suffix(case):
+    """Signature suffix naming the axes for which the widget's format spec gives no alignment."""
+    axes = [n for n, a in (("h_align", case["ha"]), ("v_align", case["va"])) if a == ""]
+    return (":" + "+".join(axes) + "-absent") if axes else ""
 ALPHAS = ["", "#", "#.7", "##", "#2a507f"]
 MAXW, MAXH = 9, 6
 
@@ -105,6 +123,18 @@ def make_case(rng, style, ident, sizing, upscale, ha, va, alpha, W, H, iw, ih, *
         c["disguise"] = [rng.randrange(3), rng.randrange(3)]
     c.update(kw)
     return c
+
+
+def visible_case(rng, *args, **kw):
+    """make_case with a source that certainly shows something (an opaque pixel, a mode that keeps
+    it): the run must cover the model's alignment universe with COLOURED traces."""
+    while True:
+        c = make_case(rng, *args, **kw)
+        if c["mode"] == "P":  # adaptive palette + transparent index 0: may come out invisible
+            c["mode"] = "RGBA"
+        px = imgs.rgba_pixels(random.Random(c["seed"]), c["src"][0], c["src"][1], c["pixstyle"])
+        if any(p[3] == 255 for p in px):
+            return c
 
 
 SWEEP_CELLS = [(10, 20), (7, 15), (3, 5)]
@@ -218,11 +248,14 @@ def gen_sessions(rng: random.Random, tier: str):
 
 def gen_cases(rng: random.Random, tier: str):
     """Yields cases; the caller stops when its trim budget is used up (quick)."""
-    # 1. the 3x3 alignments on a canvas with padding on every side (all 3x3 cut classes/axis)
+    # 1. the 4x4 alignments a format spec can give (explicit near / mid / far and ABSENT = the
+    #    documented default, per axis: "<.^" ... "|", ".-", "") on a canvas with padding on every
+    #    side (all 3x3 cut classes/axis).  Specs with an absent alignment: odd padding on both axes.
     for ha in H_ALIGNS:
         for va in V_ALIGNS:
-            yield make_case(rng, "block", rng.choice(GFX_IDENTS["block"]), "box", False, ha, va,
-                            rng.choice(ALPHAS), 7, 5, 3, 2)
+            W, H = (7, 5) if ha and va else (6, 5)
+            yield visible_case(rng, "block", rng.choice(GFX_IDENTS["block"]), "box", False, ha, va,
+                               rng.choice(ALPHAS), W, H, 3, 2)
     # 1b. histories: the canvas is kept while the same image object is rendered at other sizes
     #     (second widget sharing the image / the same widget), then every trim of the kept canvas
     for ha, va, hist in (("|", "-", [["other", 3, 2, True]]),
@@ -254,7 +287,7 @@ def gen_cases(rng: random.Random, tier: str):
                     for ha in H_ALIGNS:
                         for va in V_ALIGNS:
                             for alpha in ALPHAS:
-                                for _ in range(3):
+                                for _ in range(2):
                                     W = rng.randrange(3, MAXW + 1)
                                     H = rng.randrange(2, MAXH + 1)
                                     hist = random_history(rng, W, H) if rng.random() < 0.4 else []
@@ -265,13 +298,17 @@ def gen_cases(rng: random.Random, tier: str):
             for ident in GFX_IDENTS[style]:
                 for sizing in ("box", "flow"):
                     for upscale in (False, True):
-                        for ha in H_ALIGNS:
-                            for va in V_ALIGNS:
+                        # content() of a graphics canvas never looks at the alignment: the explicit
+                        # 3x3, each replaced by "absent" now and then
+                        for ha in H_EXPLICIT:
+                            for va in V_EXPLICIT:
                                 for _ in range(2):
                                     W = rng.randrange(2, 8)
                                     H = rng.randrange(2, 6)
                                     hist = random_history(rng, W, H) if rng.random() < 0.3 else []
-                                    yield make_case(rng, style, ident, sizing, upscale, ha, va,
+                                    yield make_case(rng, style, ident, sizing, upscale,
+                                                    ha if rng.random() < 0.8 else "",
+                                                    va if rng.random() < 0.8 else "",
                                                     rng.choice(ALPHAS), W, H,
                                                     rng.randrange(1, W + 1),
                                                     rng.randrange(1, H + 1), history=hist)
@@ -330,7 +367,7 @@ def render_case(case):
     img = imgs.make_image(rng, case["mode"], case["src"][0], case["src"][1], case["pixstyle"])
     cls = {"block": BlockImage, "kitty": KittyImage, "iterm2": ITerm2Image}[case["style"]]
     image = cls(img)
-    spec = f"{case['ha']}.{case['va']}{case['alpha']}" + ("+" + case["sargs"] if case["sargs"] else "")
+    spec = format_spec(case["ha"], case["va"], case["alpha"], case["sargs"])
     widget = UrwidImage(image, spec, upscale=case["upscale"])
     UrwidImageCanvas._ti_disguise_state = case["disguise"][0]
     for _ in range(case["disguise"][1]):
@@ -598,7 +635,7 @@ def record_canvas(case, canvas, announced, req, size_after, rects, table: RowTab
             raise
         except Exception as e:
             rep.violation(
-                f"content-raises:{case['style']}:{type(e).__name__}",
+                f"content-raises:{case['style']}:{type(e).__name__}{absent_suffix(case)}",
                 f"content({tl}, {tt}, {cols}, {rows}) of a {W}x{H} canvas raised "
                 f"{type(e).__name__}: {e}; case={json.dumps(case)}",
                 {"case": case, "rect": [tl, tt, cols, rows], "step": step},
@@ -659,10 +696,10 @@ def collect_session(case, rects, table: RowTable, rep: Report, only_step: int = 
         img = imgs.make_image(rng, case["mode"], case["src"][0], case["src"][1], case["pixstyle"])
     cls = {"block": BlockImage, "kitty": KittyImage, "iterm2": ITerm2Image}[case["style"]]
     image = cls(img)
-    sargs = "+" + case["sargs"] if case["sargs"] else ""
-    widgets = [UrwidImage(image, f"{case['ha']}.{case['va']}{case['alpha']}{sargs}",
+    widgets = [UrwidImage(image, format_spec(case["ha"], case["va"], case["alpha"], case["sargs"]),
                           upscale=case["upscale"]),
-               UrwidImage(image, f"<.^{case['alpha']}{sargs}", upscale=case["upscale2"])]
+               UrwidImage(image, format_spec("<", "^", case["alpha"], case["sargs"]),
+                          upscale=case["upscale2"])]
     UrwidImageCanvas._ti_disguise_state = 0
     out = []
     for k, st in enumerate(case["session"]):
@@ -769,6 +806,30 @@ def canaries(batch):
     return out
 
 
+def check_alignment_universe(rep: Report, res) -> None:
+    """Every alignment pair of the model's universe (MC_UrwidCanvas!Aligns, printed by the model:
+    explicit near / mid / far and ABSENT per axis) must have been exercised on real canvases:
+    accepted, coloured, horizontally trimmed traces of a text box canvas with padding on both
+    axes whose widget's format spec gives exactly that pair.  Otherwise the run is vacuous."""
+    if rep.violations:
+        return
+    dumped = res.tagged("ALIGNS")
+    if not dumped:
+        raise tlc.MachineryError("MC_UrwidCanvas did not print its alignment universe (ALIGNS)")
+    known = set(ALIGN_NAME.values())
+    universe = [f"{h}/{v}" for h in dumped[0]["h"] for v in dumped[0]["v"]]
+    foreign = [a for a in dumped[0]["h"] + dumped[0]["v"] if a not in known]
+    if foreign:
+        raise tlc.MachineryError(f"the model has alignment values the driver cannot build: {foreign}")
+    got = rep.extra.get("accepted_h_trims_of_padded_text_canvases_by_alignment", {})
+    missing = [k for k in universe if not got.get(k)]
+    if missing:
+        raise tlc.MachineryError(
+            f"vacuous: no accepted horizontally trimmed trace of a padded text canvas for the "
+            f"alignment pairs {missing} of the model's universe")
+    rep.extra["alignment_pairs_of_model_universe_exercised"] = len(universe)
+
+
 def main(rep: Report, replay: dict | None) -> None:
     rep.assumptions += ASSUMPTIONS
     rep.rule = (
@@ -797,7 +858,8 @@ def main(rep: Report, replay: dict | None) -> None:
     try:
         traces_part(rep, replay, t_start)
         if mc_future is not None:
-            model_and_replay(rep, mc_future.result())
+            res, _ = model_and_replay(rep, mc_future.result())
+            check_alignment_universe(rep, res)
     finally:
         pool.shutdown()
 
@@ -896,6 +958,9 @@ def traces_part(rep: Report, replay: dict | None, t_start: float) -> None:
             "box-canvas-redrawn-at-unchanged-size-after-image-resized": 0,
             "flow-canvas-after-environment-change": 0, "placeholder-canvas-flow": 0,
             "placeholder-canvas-box": 0}
+    # accepted, coloured, horizontally trimmed traces of padded text box canvases per alignment
+    # pair (names of UrwidCanvas!AlignValues): must cover the model's alignment universe
+    by_align: dict[str, int] = {}
     for b, vs in zip(batches, verdict_lists):
         for meta, v, trace in zip(b["_meta"], vs, b["traces"]):
             if meta is None:
@@ -937,6 +1002,10 @@ def traces_part(rep: Report, replay: dict | None, t_start: float) -> None:
                     key = (case["style"], case["ident"], case["sizing"], case["upscale"], case["ha"],
                            case["va"], case["alpha"], hc, vc)
                     classes.add((case["ha"], case["va"], hc, vc))
+                    if (not gfx and case["sizing"] == "box" and W > iw and H > ih
+                            and (tl or cols != W) and not case.get("session")):
+                        k = f"{ALIGN_NAME[case['ha']]}/{ALIGN_NAME[case['va']]}"
+                        by_align[k] = by_align.get(k, 0) + 1
                     if not gfx and "image" in hc:
                         seen["text-horizontal-cut-inside-image"] += 1
                         if geo["resized"]:
@@ -958,7 +1027,7 @@ def traces_part(rep: Report, replay: dict | None, t_start: float) -> None:
             trim = ("h" if tl or cols != W else "") + ("v" if tt or rows != H else "") or "untrimmed"
             api = "UrwidImage.rows" if clause == "flow-rows" else "UrwidImageCanvas.content"
             rep.violation(
-                f"{api}:{case['style']}:{clause}:{trim}",
+                f"{api}:{case['style']}:{clause}:{trim}{absent_suffix(case)}",
                 f"clause {v['verdict']!r} failed at row {v['at']} of content(trim_left={tl}, "
                 f"trim_top={tt}, cols={cols}, rows={rows}) on a {W}x{H} canvas (image {iw}x{ih}, "
                 f"{case['sizing']}, h_align {case['ha']!r}, v_align {case['va']!r}); "
@@ -966,6 +1035,7 @@ def traces_part(rep: Report, replay: dict | None, t_start: float) -> None:
                 {"case": case, "rect": [tl, tt, cols, rows], "step": geo["step"]},
             )
     rep.extra["accepted_by_kind"] = seen
+    rep.extra["accepted_h_trims_of_padded_text_canvases_by_alignment"] = dict(sorted(by_align.items()))
     if not replay and not rep.violations:
         empty = [k for k, n in seen.items() if n == 0]
         if empty:
